@@ -18,10 +18,10 @@ RULE = ('strongly consistent generated bases (<= 4 atoms, <= 5 conditionals; eve
 ASSUMPTIONS = ['front completeness is decided inside the box {0..max(front)+2}^n; minimal vectors outside it are out of reach',
                'keys 1..n (the ranking object documents impacts indexed by key-1)']
 TRUSTED = []
-FLOOR = {'quick': 500, 'thorough': 5000}
+FLOOR = {'quick': 150, 'thorough': 1500}
 BUDGET = {'quick': 100, 'thorough': 1500}
 N = {'quick': 2000, 'thorough': 20000}
-REQUIRED = {'quick': {'large_fronts_checked': 30, 'fronts_checked': 300, 'fronts_with_several_members': 5, 'bases_with_unfalsifiable_conditional': 30},
+REQUIRED = {'quick': {'large_fronts_checked': 15, 'fronts_checked': 150, 'fronts_with_several_members': 5, 'bases_with_unfalsifiable_conditional': 30},
             'thorough': {'large_fronts_checked': 300, 'fronts_checked': 3000, 'fronts_with_several_members': 50, 'bases_with_unfalsifiable_conditional': 300}}
 RECYCLE = 60
 
